@@ -20,6 +20,7 @@
 static int c_cases, c_distinct, c_cfg_ops, c_cfg_objs, c_atoi_exh, c_atoi_gen,
     c_atoi_overflow, c_atoi_invalid, c_env_cases, c_env_clamped, c_env_default,
     c_env_smoke, c_aff_accept, c_aff_reject, c_aff_exh, c_aff_ids, c_aff_toolarge;
+static int c_env_invariants;
 
 /* ======================================================================= */
 /* cfgmap */
@@ -622,6 +623,27 @@ static void env_case(vrt_rng *r, int idx)
         vrt_violation(key, "%s=\"%.80s\" -> effective %llu, documented rules give %llu", name, val,
                       (unsigned long long)got, (unsigned long long)exp);
     }
+    /* whatever was set, every effective value (also the ones derived from other
+     * settings, e.g. the default of MEM_MAX_NUM_STACKS from THREAD_STACKSIZE)
+     * stays inside its documented range */
+    {
+        struct {
+            const char *what;
+            uint64_t v, lo;
+        } inv[] = { { "mem_max_stacks", g.mem_max_stacks, 2 },       { "mem_max_descs", g.mem_max_descs, 2 },
+                    { "thread_stacksize", g.thread_stacksize, 512 }, { "sched_stacksize", g.sched_stacksize, 512 },
+                    { "max_xstreams", (uint64_t)g.max_xstreams, 1 }, { "key_table_size", g.key_table_size, 1 },
+                    { "mem_page_size", g.mem_page_size, 4096 },      { "huge_page_size", g.huge_page_size, 4096 },
+                    { "sched_event_freq", g.sched_event_freq, 1 } };
+        for (size_t i = 0; i < sizeof(inv) / sizeof(inv[0]); i++)
+            if (inv[i].v < inv[i].lo) {
+                char key[96];
+                snprintf(key, sizeof(key), "env:%s-below-minimum", inv[i].what);
+                vrt_violation(key, "%s=\"%.80s\" -> effective %s = %llu, documented minimum %llu", name, val, inv[i].what,
+                              (unsigned long long)inv[i].v, (unsigned long long)inv[i].lo);
+            }
+        vrt_count(c_env_invariants, 1);
+    }
     if (idx < 4)
         vrt_sample("env case: %s=\"%.60s\" -> %llu", name, val, (unsigned long long)got);
     /* ABT_init + smoke workload when the effective values are of sane magnitude */
@@ -1044,6 +1066,7 @@ int main(int argc, char **argv)
     c_env_clamped = vrt_counter("env_values_clamped");
     c_env_default = vrt_counter("env_unparsable_default");
     c_env_smoke = vrt_counter("env_smoke_workloads");
+    c_env_invariants = vrt_counter("env_cases_with_all_effective_values_range_checked");
     c_aff_accept = vrt_counter("affinity_valid");
     c_aff_reject = vrt_counter("affinity_invalid");
     c_aff_exh = vrt_counter("affinity_exhaustive_strings");
